@@ -157,6 +157,27 @@ def parser_snapshot(solver):
             'trace': solver.TraceStep, 'tolparam': solver.ParameterErrorTolerance}
 
 
+def approach_class(search_copy, st, v, moved, v0):
+    """How the variable approached its limit during the search (read off the trajectory the search itself returns):
+    'accepted-on-a-small-step-of-an-uneven-approach' when the last step meets the library's own last-pair test, one of
+    the two steps before it was clearly larger than the tolerance allows, and the movement afterwards stays within 4
+    tolerances (known finding F26: a slowly damped spiral accepted at a moment when this variable hardly moves);
+    'other' otherwise."""
+    try:
+        ts = list(search_copy.TimeSeries[v])
+        if len(ts) < 4:
+            return 'other'
+        tol = float(st['tol'])
+        lim = max(tol, tol * abs(ts[-1]))
+        d_last = abs(ts[-1] - ts[-2])
+        before = max(abs(ts[-2] - ts[-3]), abs(ts[-3] - ts[-4]))
+        if d_last <= lim and before > lim and moved <= 4.0 * max(tol, tol * abs(v0)):
+            return 'accepted-on-a-small-step-of-an-uneven-approach'
+    except Exception:   # noqa
+        pass
+    return 'other'
+
+
 def execute(case):
     core.import_sut()
     from sfc_models.equation_solver import EquationSolver
@@ -196,10 +217,11 @@ def execute(case):
     pre_series = eqn.snapshot(solver.TimeSeries)
     exo_names = [v for v, _ in solver.Parser.Exogenous]
     msg = ''
+    search_copy = None
     try:
         with warnings.catch_warnings():
             warnings.simplefilter('ignore')
-            solver.CalculateInitialSteadyState()
+            search_copy = solver.CalculateInitialSteadyState()
         verdict = 'accepted'
     except Exception as ex:   # noqa
         verdict = type(ex).__name__
@@ -289,7 +311,8 @@ def execute(case):
                         sgn = 'negative' if v0 < 0 else ('positive' if v0 > 0 else 'zero')
                         viol.append(core.violation(ID, 'accepted-state-not-steady', 'accepted-state-not-steady:' + sgn,
                                                    var=v, installed=v0, after_one_more_period=v1, moved=moved,
-                                                   tol=tol, relative=moved / abs(v0) if v0 else None))
+                                                   tol=tol, relative=moved / abs(v0) if v0 else None,
+                                                   approach=approach_class(search_copy, st, v, moved, v0)))
                         break
                 stats['probes']['accepted_and_checked'] = 1
     # (iii) the exclusion list is the user's: a variable that is not on it and is still clearly moving at the end of the
